@@ -15,7 +15,7 @@
    the Section hypothesis `checker_sound_complete` is discharged by the C01/C02 lemmas.              *)
 From Coq Require Import List Arith Bool String ZArith Lia.
 From PV Require Import Base.Exn Base.Values Base.Ann Base.PyCall Model.CheckerCfg Model.Checker Model.PedanticCfg
-  Model.Pedantic Model.PedanticEval Spec.Conforms Spec.PedanticSpec
+  Model.Pedantic Model.GenWrapper Model.PedanticEval Spec.Conforms Spec.PedanticSpec
   Proofs.PedanticBase Proofs.PyCallFacts Proofs.PedanticC03 Proofs.PedanticC04 Proofs.PedanticChecker Proofs.PedanticWitness Gen.Pedantic Gen.CheckerTables.
 Import ListNotations.
 Close Scope Z_scope.
@@ -70,7 +70,7 @@ Section Relative.
     (forall b cons, c04_result_ok ctx f (bd b cons) = true) ->
     run pc check consumes f c bd = twin f c bd.
   Proof.
-    intros pc f c bd G g H Hres. unfold c04_call_ok in H.
+    intros pc f c bd G g H Hres. unfold c04_call_ok, c04_args_ok in H.
     destruct (twin_binding f c) as [b|] eqn:Eb; [|discriminate].
     apply andb_true_iff in H as [H Hret]. apply andb_true_iff in H as [H Hann]. apply andb_true_iff in H as [_ Hgood].
     destruct (f_ret f) as [r|] eqn:Er; [|discriminate].
@@ -232,6 +232,18 @@ Proof.
   exists s_varargs, (poscall [] [one] []), (returns one). repeat split; reflexivity.
 Qed.
 Print Assumptions C04_star_elements_dropped_refuted.
+
+(* generators: after the generator has returned, next() on the wrapper raises PedanticTypeCheckException (the None of the
+   new StopIteration is checked against the return type int); the undecorated generator raises StopIteration *)
+Theorem C04_exhausted_generator_refuted : exists body ops rs w',
+  w_run gen_check AInt ANone AInt body wstate0 ops = (rs, w')
+  /\ rs = [WValue one; WStop (VInt 5%Z); WRaise PTypeCheckC]
+  /\ fst (inner_send body {| g_hist := [RSend VNone; RSend VNone]; g_started := true; g_done := true |} VNone) = IStop VNone.
+Proof.
+  exists (script_body TPropagate [SYield one; SRet (VInt 5%Z)]), [OpNext; OpNext; OpNext].
+  eexists. eexists. split; [vm_compute; reflexivity|]. split; reflexivity.
+Qed.
+Print Assumptions C04_exhausted_generator_refuted.
 
 (* observation outside the domain of C04 (the call passes a declared parameter positionally, which functions with
    *args allow): def f(a: int, *args: str); f(1, 'x') raises PedanticTypeCheckException, because _check_types_args
